@@ -54,7 +54,7 @@ parser must have returned the identical formula object.
   swapped precedence in `/repo` breaks.
 
 ## The fragment (`Impl/HR.lean: fragNode`, decidable; the driver request `hrfrag` evaluates it on every generated formula:
-≈ 77 % of the stream is in `InHRFrag`, ≈ 90 % in `InHRFragN`)
+≈ 73 % of the stream is in `InHRFrag`, ≈ 85 % in `InHRFragN`; ≈ 5 % are deliberate F30 names)
 
 Every node has one of the printer's forms — infix application (binary for `InHRFrag`), `(! a)`/`(- a)`, rotations and
 extensions `(a ROL k)`, `ToReal(a)`/`bv2nat(a)`, the string functions, `(c ? a : b)`, quantifiers with at least one
